@@ -408,7 +408,10 @@ func getActions(bin, profile string, seed uint64, gomaxprocs int) (*RunResult, b
 		line := sc.Text()
 		switch {
 		case strings.HasPrefix(line, "CFG "):
+			// a free-running seed prints two phases: the last configuration and its
+			// action list are the ones that were executing
 			r.Config = json.RawMessage(line[4:])
+			r.Actions = nil
 		case strings.HasPrefix(line, "ACT "):
 			r.Actions = append(r.Actions, json.RawMessage(line[4:]))
 		case strings.HasPrefix(line, "END "):
